@@ -134,7 +134,14 @@ def run(ctx):
         "evaluations": summary.get("oracle_steps", 0) + summary.get("disk_steps", 0) + summary.get("ids_files", 0)
         + summary.get("reid_cases", 0),
         "distinct_nontrivial": summary.get("oracle_distinct_project_states", 0),
-        "rule": "on-disk histories (leg disk): a scratch project (two crate roots, modules, a directory module) whose files "
+        "rule": "permutation histories (project corpus/C13/order, 2 of 9 histories): two elements of a list change places "
+                "(adjacent or distant) - struct members, enum variants, params, generic params, module / impl / trait "
+                "items, match arms, ctor and pattern fields, statements, use lists, attributes, arguments - on a program "
+                "where order is observable (layouts, Serde/derive order, variant indices, signatures), often followed by "
+                "the swap back; same multiset, other order is the one change an order-insensitive Eq/Hash hides from "
+                "salsa's back-dating, so this family is the empirical check, on the real queries, of the hypothesis "
+                "`veq a b = true -> a = b` of C13_memo_correct for order-carrying values (ordered maps, lists). "
+                "on-disk histories (leg disk): a scratch project (two crate roots, modules, a directory module) whose files "
                 "are really created / deleted / rewritten / renamed on disk between the steps - `mod x;` declared before "
                 "its file exists, file missing at the first query then created, deleted then re-created with other "
                 "content, a module gaining a submodule file, the second crate root rewritten - interleaved with override "
